@@ -1,0 +1,19 @@
+//go:build verif
+
+package primev
+
+import (
+	"github.com/jackc/pgx/v4/pgxpool"
+
+	"github.com/shutter-network/rolling-shutter/rolling-shutter/keyper/epochkghandler"
+	"github.com/shutter-network/rolling-shutter/rolling-shutter/medley/broker"
+)
+
+// Verification hook (build tag "verif"): constructor for the handler with unexported fields.
+func VerifNewCommitmentHandler(
+	config *Config,
+	triggerCh chan *broker.Event[*epochkghandler.DecryptionTrigger],
+	dbpool *pgxpool.Pool,
+) *PrimevCommitmentHandler {
+	return &PrimevCommitmentHandler{config: config, decryptionTriggerChannel: triggerCh, dbpool: dbpool}
+}
